@@ -21,7 +21,7 @@ META = dict(
     id='C12',
     level='proof',
     technique='Coq proof (the per-line reader state machine with error_flag, include counters, the exit-status mapping regenerated from main.cc and the option precedence regenerated from session.cc, proved to report exactly one located message per invalid item) + differential correspondence of the extracted model against ledger',
-    level_text='Theorems in coq/Properties/Properties_C12.v state, for all files of any length and include nesting, that the model of instance_t::parse / read_next_directive / the block loops / include_directive writes exactly the concatenation, in file order, of one located message per invalid item (none for a valid item; an invalid item never hides a later one), that the location lies inside the item, that the error count equals the number of messages with include counts added to the parent, that a report is written iff the count is zero, that valid input is silent with status 0, that with several -f files every file is read and every invalid item of every file gets its message (counts summed), that the exit status (main.cc mapping regenerated on every run into coq/Gen/StatusOfCount.v) is non-zero iff the count is positive, and that under --pedantic without --permissive (precedence chain regenerated from session.cc into coq/Gen/CheckingStyle.v) every undeclared account, commodity, tag and (with --check-payees) payee is a counted error whatever else is set, a warning under --strict alone, quiet otherwise. The model is tied to the code by reading thousands of generated journals with 0-512 injected faults (unbalanced, bad date, bad amount, failed assertion, unknown account/commodity/tag/payee, stray and malformed directives; first/last/adjacent/inside includes) under every subset of --strict --pedantic --permissive --check-payees (command line, init file, environment) in both and comparing every message location, include chain, class, line range, count, status and stdout emptiness.',
+    level_text='Theorems in coq/Properties/Properties_C12.v state, for all files of any length and include nesting, that the model of instance_t::parse / read_next_directive / the block loops / include_directive writes exactly the concatenation, in file order, of one located message per invalid item (none for a valid item; an invalid item never hides a later one), that the location lies inside the item, that the error count equals the number of messages with include counts added to the parent, that a report is written iff the count is zero, that valid input is silent with status 0, that with several -f files every file is read and every invalid item of every file gets its message (counts summed), that the exit status (main.cc mapping regenerated on every run into coq/Gen/StatusOfCount.v) is non-zero iff the count is positive, and that under --pedantic without --permissive (precedence chain regenerated from session.cc into coq/Gen/CheckingStyle.v) every undeclared account, commodity, tag and (with --check-payees) payee is a counted error whatever else is set, a warning under --strict alone, quiet otherwise; and (Model/ErrorsReader.v, facts regenerated from read_line / comment_directive / parse into coq/Gen/LineReader.v) that a `comment` / `test` block moves the line counter by exactly the number of its physical lines - empty ones included - and changes nothing else, so that a file with comment blocks writes what the same file with the blocks replaced by a valid one-line item and empty lines writes (all theorems carry over), that a byte-order mark is transparent iff it is tested against line 1 (refuted for the source as it stands: F1201) and that an over-long line is located at itself and hides nothing iff it is counted before the throw and skipped after it (refuted as it stands: F1202). The model is tied to the code by reading thousands of generated journals with 0-512 injected faults (unbalanced, bad date, bad amount, failed assertion, unknown account/commodity/tag/payee, stray and malformed directives; first/last/adjacent/inside includes) under every subset of --strict --pedantic --permissive --check-payees (command line, init file, environment) in both and comparing every message location, include chain, class, line range, count, status and stdout emptiness.',
     level_note='Trusted: Coq kernel; extraction + OCaml driver and the python harness for the correspondence; the translator pattern for the status expression in main.cc. The model receives the classification of each line (which error class parsing it throws) from the harness: that a given malformed date/amount/account is rejected by the date/amount/account code is observed through the correspondence check, not proved. Unknown payees are faults only with --check-payees (ledger documents payee checking as opt-in).',
     design_ref='DESIGN.md section 7 C12, section 3.2 (status table)',
     assumptions=['a declaration or posting written inside `apply account ROOT` (or under --master-account ROOT) names the account ROOT:NAME; commodity, tag and payee directives are not affected by the block',
